@@ -123,6 +123,7 @@ class Gen(object):
         self.const_style = 'plain'
         self.arrays = False           # array element assignments / reads (prebuild checks only)
         self.logical_calls = False    # invocations as operands of and / or (differential checks only)
+        self.case_twins = False       # variables that differ from another one in letter case only (prebuild checks only)
         self.param_kw = ['param']     # spellings of the parameter access keyword (state actions: param / rcvd_evt)
         self.self_relates = False     # self as a participant of relate statements (prebuild checks only: nothing is executed)
         self.refattrs = False         # reads of referential attributes (prebuild checks only: identifier values are not modelled)
@@ -341,6 +342,15 @@ class Gen(object):
             name = self.t.choice(vs)
         else:
             name = env.fresh({'int': 'i', 'str': 's', 'bool': 'b', 'real': 'r'}[ty])
+            if self.case_twins and self.t.pick(3) == 0:
+                # identifiers are case sensitive: a new variable spelled like a visible one of ANOTHER type, first letter
+                # in upper case (i1 / I1), is a variable of its own
+                lows = [v for v in env.vars(lambda i: i['ty'] in ('int', 'str', 'bool', 'real') and i['ty'] != ty)
+                        if v[0].islower() and env.get(v[0].upper() + v[1:]) is None and v not in ('acc',)]
+                if lows:
+                    low = self.t.choice(lows)
+                    name = low[0].upper() + low[1:]
+                    self.features.add('case-twin-variable')
         e = self.expr(env, ty)
         env.set(name, {'ty': ty})
         return [N('AssignmentNode', variable_access=self.var(name), expression=e)]
